@@ -20,7 +20,8 @@ RULE = ('(a) ordered sets of <=2 trajectories (len 1..4, 3 states; Q: second tra
         'x builder {normalize,transpose,mle(every 5th set, trimmed only)} x trim x sliding x max_n_states {None,5}: estimator vs function pipeline; (b) save/load on every 7th '
         'configuration; (c) all irreducible row-stochastic matrices n=3 with rows on the denominator-4 simplex lattice '
         '(T: + n=4 denominator 2) dense+csr: eigenspectrum laws, implied_timescales on assignment sets, synthetic_ensemble '
-        'for n<=5 and all lattice start vectors; state=(assignments|matrix, configuration); non-trivial = configuration '
+        'for n<=5 and all lattice start vectors; the sparse >=1000-state (ARPACK) branch of eigenspectrum on a family of '
+        'nearly periodic (stay 0.03) and lazy (0.5) reversible walks on bipartite circulant graphs with 1000 and 1100 states x n_eigs {2,4,6}; state=(assignments|matrix, configuration); non-trivial = configuration '
         'where sliding and strided counts differ / chain with complex or negative eigenvalues')
 ASSUMPTIONS = ['eigenvalues compared as sorted real parts with numpy.linalg.eigvals at 1e-6 (defective eigenvalues move by '
                'sqrt(eps) between solvers); real eigenvalues additionally satisfy sigma_min(T - lambda I) <= 1e-7',
@@ -28,13 +29,14 @@ ASSUMPTIONS = ['eigenvalues compared as sorted real parts with numpy.linalg.eigv
                'is only asserted when populations are finite',
                'one-state models: eq_probs_ comes back 0-d from loadtxt; compared after atleast_1d',
                'max_n_states is not part of MSM.config and is not asserted to survive save/load']
-GUARDS = {'sliding_differs': 500, 'trim_removed_states': 500, 'roundtrip': 200, 'complex_eigs': 100, 'negative_eigs': 100,
+GUARDS = {'arpack_branch': 10, 'sliding_differs': 500, 'trim_removed_states': 500, 'roundtrip': 200, 'complex_eigs': 100, 'negative_eigs': 100,
           'pipeline_raises_both': 0, 'imp_times': 100}
 NSH = {'quick': 60, 'thorough': 240}
 
 
 def shards(tier, seed):
-    return [('fit', tier, i) for i in range(NSH[tier])] + [('spec', tier, i) for i in range(16)]
+    return [('fit', tier, i) for i in range(NSH[tier])] + [('spec', tier, i) for i in range(16)] + \
+        [('arpack', tier, i) for i in range(8)]
 
 
 def dense(M):
@@ -226,6 +228,46 @@ def check_spectrum(case, ctx):
                 break
 
 
+def big_chain(n, stay, skew):
+    """lazy random walk on a bipartite circulant graph: node i <-> i +- (2^m - 1) mod n, m = 1..6 (n even).
+    Symmetric, hence reversible with a real, well-conditioned and well-separated spectrum: 1, then a gap, and -(1-2*stay)
+    at the other end (the walk is nearly periodic for small `stay`).  `skew` is kept for the case format only."""
+    T = np.zeros((n, n))
+    offs = [2 ** m - 1 for m in range(1, 7)]
+    for i in range(n):
+        T[i, i] += stay
+        for o in offs:
+            for sgn in (1, -1):
+                T[i, (i + sgn * o) % n] += (1 - stay) / (2 * len(offs))
+    return T
+
+
+def check_arpack(case, ctx):
+    """sparse matrices with >= 1000 states take the ARPACK branch of eigenspectrum"""
+    from enspara.msm.transition_matrices import eigenspectrum, eq_probs
+    n, stay, skew, k = case['n'], case['stay'], case['skew'], case['n_eigs']
+    T = big_chain(n, stay, skew)
+    ctx.ev()
+    ctx.guard('arpack_branch')
+    ref = np.linalg.eigvals(T)
+    want = np.sort(ref.real)[::-1][:k]
+    ctx.state(('arpack', n, stay, skew, k), nontrivial=bool((ref.real < -0.5).any()))
+    try:
+        vals, vecs = eigenspectrum(sp.csr_matrix(T), n_eigs=k)
+    except Exception as e:
+        ctx.violation('arpack:raises:%s' % type(e).__name__, case, 'eigenspectrum raised %r on %r' % (e, case))
+        return
+    vals = np.asarray(vals)
+    if vals.shape != (k,) or np.iscomplexobj(vals) or (np.diff(vals) > 1e-9).any() or abs(vals[0] - 1) > 1e-8:
+        ctx.violation('arpack:order_or_leading', case, 'vals %r' % vals.tolist())
+    elif np.abs(vals - want).max() > 1e-6:
+        ctx.violation('arpack:not_the_largest_eigenvalues', case,
+                      'returned %r, the %d largest (by real part) are %r (%r)' % (vals.tolist(), k, want.tolist(), case))
+    v0 = np.asarray(vecs)[:, 0]
+    if v0.min() < -1e-9 or abs(v0.sum() - 1) > 1e-8 or np.abs(v0 @ T - v0).max() > 1e-8:
+        ctx.violation('arpack:first_vector_not_stationary', case, 'residual %g' % np.abs(v0 @ T - v0).max())
+
+
 def check_imp(case, ctx):
     from enspara.msm import builders
     from enspara.msm.timescales import implied_timescales
@@ -299,6 +341,15 @@ def run_shard(sh, ctx):
                 check_imp({'kind': 'imp', 'trajs': trajs, 'lags': [2], 'builder': 'transpose', 'sliding': False}, ctx)
             if j % 997 == 0:
                 ctx.sample(case)
+    elif kind == 'arpack':
+        # reversible walks only: for skewed (highly non-normal) walks of this size the eigenvalues themselves are
+        # ill-conditioned (dense LAPACK on T and on T.T disagree in the 3rd digit), so no oracle exists
+        grid = [(n, stay, skew, k) for n in (1000, 1100) for stay in (0.03, 0.5) for skew in (0.5,) for k in (2, 4, 6)]
+        for j in range(i, len(grid), 8):
+            n, stay, skew, k = grid[j]
+            case = {'kind': 'arpack', 'n': n, 'stay': stay, 'skew': skew, 'n_eigs': k}
+            check_arpack(case, ctx)
+        ctx.sample(case)
     else:
         cs = chains(tier)
         p0s = [list(np.array(r) / 2.0) for r in mr.simplex_rows(3, 2)]
@@ -312,4 +363,4 @@ def run_shard(sh, ctx):
 
 
 def replay(case, ctx):
-    {'fit': check_fit, 'spec': check_spectrum, 'imp': check_imp}[case['kind']](case, ctx)
+    {'fit': check_fit, 'spec': check_spectrum, 'imp': check_imp, 'arpack': check_arpack}[case['kind']](case, ctx)
